@@ -2,6 +2,7 @@ import RainModel.Model.Blocks
 import RainModel.Lemmas.Blocks
 import RainModel.Model.Geometry
 import RainModel.Lemmas.Geometry
+import RainModel.Lemmas.SectionIO
 /-!
 C02 — piece/file geometry.  Property theorems only; helper lemmas live in `Lemmas/`.
 -/
@@ -97,5 +98,62 @@ example : newPieces [⟨3, false, 1⟩] 4 1 4 = .panic ∧
     TilesFiles [⟨3, false, 1⟩, ⟨1, false, 2⟩] 4 1 4 [⟨4, [⟨0, 0, 4, false, 1⟩]⟩] = false := by decide
 
 end NewPieces
+
+/-! ### `filesection.Piece.Write` / `ReadAt`, `storage.PaddingFile` -/
+section ReadWrite
+open Rain.Geometry
+
+/-- **read_write_roundtrip.** Let the sections of a piece fit the store (`fits`: a padding section
+sits on a `PaddingFile`, a data section inside a data file) and let its data sections be pairwise
+disjoint (`(dataStream p).Nodup`, which `newPieces_tiles` gives for every piece of an accepted
+metainfo).  Then for every buffer of the piece's length:
+* `Write` does not panic — in particular it never calls `WriteAt` on a padding file, which is
+  the only way the model's `write` can yield `.panic` besides a short buffer — reports exactly the
+  number of non-padding bytes, and satisfies the executable oracle `writeOK`;
+* no byte outside the piece's data sections changes and padding files stay padding files;
+* for **every** `off`, `n` with `0 < n` and `off + n ≤ piece length`, `ReadAt` afterwards does not
+  panic (no index out of range in the skip loop, also for `off` on a section boundary and with
+  zero-length sections) and returns exactly `buf[off, off+n)` with the padding regions replaced
+  by zeros (`readOK`). -/
+theorem read_write_roundtrip (st : Store) (p : List Geometry.Sec) (buf : List Nat)
+    (hfit : fits st p = true) (hdis : (dataStream p).Nodup) (hlen : buf.length = secsLen p) :
+    ∃ st', write st p buf 0 = .ok st' (secsLen (p.filter fun s => !s.pad)) ∧
+      writeOK st p buf (.ok st' (secsLen (p.filter fun s => !s.pad))) = true ∧
+      (∀ f o, (f, o) ∉ dataStream p → getByte st' f o = getByte st f o) ∧
+      (∀ f : Nat, st[f]? = some FileStore.padding → st'[f]? = some FileStore.padding) ∧
+      ∀ off n, 0 < n → off + n ≤ secsLen p →
+        readAt st' p off n = .ok (((zeroPadding p buf).drop off).take n) ∧
+        readOK st' p off n (readAt st' p off n) = true := by
+  obtain ⟨st', hw, hsh, hfr, hc⟩ := write_spec p st buf 0 hfit hdis (by omega)
+  rw [Nat.zero_add] at hw
+  refine ⟨st', hw, writeOK_of rfl hc hsh hfr, hfr, hsh.pad, ?_⟩
+  intro off n hn hle
+  have hr := readAt_spec st' p off n (fits_of_sameShape hsh p hfit) hn hle
+  refine ⟨by rw [hr, hc], ?_⟩
+  rw [hr]; simp [readOK]
+
+/-- Reading needs no preceding write: any in-range `ReadAt` on a fitting piece returns the
+piece's content (padding as zeros); this is the statement C03 (upload) and the verifier rely on. -/
+theorem readAt_in_range (st : Store) (p : List Geometry.Sec) (off n : Nat) (hfit : fits st p = true) (hn : 0 < n)
+    (hle : off + n ≤ secsLen p) : readOK st p off n (readAt st p off n) = true := by
+  rw [readAt_spec st p off n hfit hn hle]; simp [readOK]
+
+/-- Non-vacuity: a piece `[data 2 of file 0 @1][pad 2][zero-length data][data 1 of file 2 @0]`;
+write `1,2,3,4,5`, then read `[1,4)` (starting inside the first section, crossing the padding and
+the zero-length section boundary). -/
+example :
+    let st : Store := [.data [9, 9, 9], .padding, .data [7]]
+    let p : List Geometry.Sec := [⟨0, 1, 2, false, 1⟩, ⟨1, 0, 2, true, 2⟩, ⟨0, 3, 0, false, 1⟩, ⟨2, 0, 1, false, 3⟩]
+    fits st p = true ∧ (dataStream p).Nodup ∧
+    write st p [1, 2, 3, 4, 5] 0 = .ok [.data [9, 1, 2], .padding, .data [5]] 3 ∧
+    readAt [.data [9, 1, 2], .padding, .data [5]] p 1 4 = .ok [2, 0, 0, 5] ∧
+    readAt [.data [9, 1, 2], .padding, .data [5]] p 2 2 = .ok [0, 0] := by decide
+
+/-- Outside the hypotheses the model does show the Go failures: an offset past the end panics
+(`p[i]` with `i = len(p)`), a data section on a padding file panics in `Write`. -/
+example : readAt [.data [1, 2]] [⟨0, 0, 2, false, 1⟩] 3 1 = .panic ∧
+    write [.padding] [⟨0, 0, 1, false, 1⟩] [5] 0 = .panic := by decide
+
+end ReadWrite
 
 end Rain.Props.C02
